@@ -13,6 +13,7 @@ import copy
 import math
 import re
 
+from .. import envmode
 from ..kernel import Violation, Budget, Discard, SimCrash, DrawCap, feq, cjson
 from ..gen import gen_seq, same_classes_other_letters
 from ..clock import SimClock, MODES
@@ -120,7 +121,7 @@ def gen_plan(streams, tier):
     restart = frnd.random() < (0.5 if fault["kind"] != "none" else 0.12)
     if restart and frnd.random() < 0.4:
         restart = "same_machine"       # the caller retries run() on the same machine object (e.g. after a transient I/O error)
-    return {"property": ID, "run_seed": streams.run_seed, "seq": seq, "cfg": cfg,
+    return {"property": ID, "env": envmode.choose(rnd), "run_seed": streams.run_seed, "seq": seq, "cfg": cfg,
             "input": rnd.choice(("string", "string", "object_fresh", "object_warm", "permutants_api")),
             "frozen": sorted(rnd.sample(range(len(seq)), rnd.randrange(0, 3))) if rnd.random() < 0.15 else [],
             "move_rng": rnd.choice(("mt", "tape", "tape", "biased")), "clock_mode": rnd.choice(MODES),
@@ -807,6 +808,7 @@ def execute(plan, ctx):
     import localcider.sequenceParameters as spmod
     from localcider.backend.sequence import Sequence
     from localcider.backend.localciderExceptions import SequenceException
+    envmode.apply(plan.get("env"), ctx)
     spmod.print = lambda *a, **k: None
     wl.print = lambda *a, **k: None
     clock = SimClock(ctx, ctx.streams.stream("clock"), plan.get("clock_mode", "normal"))
